@@ -18,6 +18,7 @@ def run(ctx):
     S = lib_schema.all_families(ctx, P, funcs=tbl)
     lib_schema.getters(ctx, P, S)
     lib_schema.subset_helpers(ctx, P)
+    lib_mem.capacity(ctx, P)
     lib_mem.sizeof_elements(ctx, P, tus=["tables"], funcs=tbl)
     lib_module.array_flags(ctx, P, only=ms)
     lib_module.owned_arrays(ctx, P)
